@@ -1,1 +1,245 @@
 //! Facade for `query_pool.rs` and `query_pool/peers/*`.
+//!
+//! `crate::query_pool` is a private module and `FindNodeQuery` / `PredicateQuery` and their
+//! configurations are only visible inside the crate, so the peer iterators and the pool are
+//! exposed through thin new-type wrappers instantiated at `TNodeId = NodeId` and
+//! `TResult = ReportedPeer` (a node id together with the value the predicate takes on it).
+
+use crate::kbucket::{Key, PredicateKey};
+use crate::query_pool::{
+    FindNodeQuery, FindNodeQueryConfig, PredicateQuery, PredicateQueryConfig,
+};
+pub use crate::query_pool::{QueryId, QueryPool, QueryPoolState, QueryState, TargetKey};
+use enr::NodeId;
+use std::time::{Duration, Instant};
+
+/// The `TResult` the wrappers use: a node id and the value of the predicate on its record.
+#[derive(Clone, Debug, PartialEq, Eq)]
+pub struct ReportedPeer {
+    pub id: NodeId,
+    pub flag: bool,
+}
+
+impl From<ReportedPeer> for NodeId {
+    fn from(p: ReportedPeer) -> NodeId {
+        p.id
+    }
+}
+
+impl From<&ReportedPeer> for NodeId {
+    fn from(p: &ReportedPeer) -> NodeId {
+        p.id
+    }
+}
+
+/// The `TTarget` the pool wrapper uses.
+#[derive(Clone, Debug)]
+pub struct VTarget(pub NodeId);
+
+impl TargetKey<NodeId> for VTarget {
+    fn key(&self) -> Key<NodeId> {
+        self.0.into()
+    }
+}
+
+/// `FindNodeQuery<NodeId>`.
+pub struct VFindNodeQuery(FindNodeQuery<NodeId>);
+
+impl VFindNodeQuery {
+    pub fn with_config(
+        parallelism: usize,
+        num_results: usize,
+        peer_timeout: Duration,
+        target: NodeId,
+        known: Vec<NodeId>,
+    ) -> Self {
+        let config = FindNodeQueryConfig {
+            parallelism,
+            num_results,
+            peer_timeout,
+        };
+        VFindNodeQuery(FindNodeQuery::with_config(
+            config,
+            target.into(),
+            known.into_iter().map(Key::from),
+        ))
+    }
+
+    pub fn on_success(&mut self, peer: &NodeId, closer: Vec<NodeId>) {
+        self.0.on_success(peer, closer)
+    }
+
+    pub fn on_failure(&mut self, peer: &NodeId) {
+        self.0.on_failure(peer)
+    }
+
+    pub fn next(&mut self, now: Instant) -> QueryState<NodeId> {
+        self.0.next(now)
+    }
+
+    pub fn into_result(self) -> Vec<NodeId> {
+        self.0.into_result()
+    }
+
+    /// `into_result` of a clone.
+    pub fn peek_result(&self) -> Vec<NodeId> {
+        self.0.clone().into_result()
+    }
+
+    /// The derived `Debug` rendering (progress, peer states, `num_waiting`).
+    pub fn debug(&self) -> String {
+        format!("{:?}", self.0)
+    }
+}
+
+/// `PredicateQuery<NodeId, ReportedPeer>` with the predicate `|p| p.flag`.
+pub struct VPredicateQuery(PredicateQuery<NodeId, ReportedPeer>);
+
+impl VPredicateQuery {
+    pub fn with_config(
+        parallelism: usize,
+        num_results: usize,
+        peer_timeout: Duration,
+        target: NodeId,
+        known: Vec<(NodeId, bool)>,
+    ) -> Self {
+        let config = PredicateQueryConfig {
+            parallelism,
+            num_results,
+            peer_timeout,
+        };
+        VPredicateQuery(PredicateQuery::with_config(
+            config,
+            target.into(),
+            known.into_iter().map(|(id, predicate_match)| PredicateKey {
+                key: id.into(),
+                predicate_match,
+            }),
+            |p: &ReportedPeer| p.flag,
+        ))
+    }
+
+    pub fn on_success(&mut self, peer: &NodeId, closer: &[ReportedPeer]) {
+        self.0.on_success(peer, closer)
+    }
+
+    pub fn on_failure(&mut self, peer: &NodeId) {
+        self.0.on_failure(peer)
+    }
+
+    pub fn next(&mut self, now: Instant) -> QueryState<NodeId> {
+        self.0.next(now)
+    }
+
+    pub fn into_result(self) -> Vec<NodeId> {
+        self.0.into_result()
+    }
+}
+
+/// What `QueryPool::poll` returned, in owned form (a finished / timed out query is consumed with
+/// `into_result`).
+#[derive(Clone, Debug, PartialEq, Eq)]
+pub enum VPoolEvent {
+    Idle,
+    WaitingNone,
+    Request { id: usize, peer: NodeId },
+    Finished { id: usize, result: Vec<NodeId> },
+    Timeout { id: usize, result: Vec<NodeId> },
+}
+
+/// `QueryPool<VTarget, NodeId, ReportedPeer>`.
+pub struct VPool(QueryPool<VTarget, NodeId, ReportedPeer>);
+
+impl VPool {
+    pub fn new(query_timeout: Duration) -> Self {
+        VPool(QueryPool::new(query_timeout))
+    }
+
+    pub fn add_findnode(
+        &mut self,
+        parallelism: usize,
+        num_results: usize,
+        peer_timeout: Duration,
+        target: NodeId,
+        known: Vec<NodeId>,
+    ) -> usize {
+        let config = FindNodeQueryConfig {
+            parallelism,
+            num_results,
+            peer_timeout,
+        };
+        *self
+            .0
+            .add_findnode_query(config, VTarget(target), known.into_iter().map(Key::from))
+    }
+
+    pub fn add_predicate(
+        &mut self,
+        parallelism: usize,
+        num_results: usize,
+        peer_timeout: Duration,
+        target: NodeId,
+        known: Vec<(NodeId, bool)>,
+    ) -> usize {
+        let config = PredicateQueryConfig {
+            parallelism,
+            num_results,
+            peer_timeout,
+        };
+        *self.0.add_predicate_query(
+            config,
+            VTarget(target),
+            known.into_iter().map(|(id, predicate_match)| PredicateKey {
+                key: id.into(),
+                predicate_match,
+            }),
+            |p: &ReportedPeer| p.flag,
+        )
+    }
+
+    /// `get_mut(id).map(|q| q.on_success(..))`; `false` if there is no such query.
+    pub fn on_success(&mut self, id: usize, peer: &NodeId, closer: &[ReportedPeer]) -> bool {
+        match self.0.get_mut(QueryId(id)) {
+            Some(query) => {
+                query.on_success(peer, closer);
+                true
+            }
+            None => false,
+        }
+    }
+
+    /// `get_mut(id).map(|q| q.on_failure(..))`; `false` if there is no such query.
+    pub fn on_failure(&mut self, id: usize, peer: &NodeId) -> bool {
+        match self.0.get_mut(QueryId(id)) {
+            Some(query) => {
+                query.on_failure(peer);
+                true
+            }
+            None => false,
+        }
+    }
+
+    pub fn poll(&mut self) -> VPoolEvent {
+        match self.0.poll() {
+            QueryPoolState::Idle => VPoolEvent::Idle,
+            QueryPoolState::Waiting(None) => VPoolEvent::WaitingNone,
+            QueryPoolState::Waiting(Some((query, peer))) => VPoolEvent::Request {
+                id: *query.id(),
+                peer,
+            },
+            QueryPoolState::Finished(query) => VPoolEvent::Finished {
+                id: *query.id(),
+                result: query.into_result().closest_peers.collect(),
+            },
+            QueryPoolState::Timeout(query) => VPoolEvent::Timeout {
+                id: *query.id(),
+                result: query.into_result().closest_peers.collect(),
+            },
+        }
+    }
+
+    /// Ids of the queries in the pool, in the pool's iteration order.
+    pub fn ids(&self) -> Vec<usize> {
+        self.0.iter().map(|q| *q.id()).collect()
+    }
+}
